@@ -29,6 +29,8 @@ for _k in ('node', 'zombie_list_node', 'rcu_guard'):
     NAMES += '#define %s__op_assign__1(a, x) vf_aptr_store(a, (void *)(x), VF_MO_SEQ_CST)\n' % A
     NAMES += '#define %s__ctor__pointer_type(a, x) ((a)->v = (void *)(x))\n' % A
     NAMES += '#define %s__compare_exchange_weak__3(a, e, d, mo) vf_aptr_cas_weak(a, (void **)(e), (void *)(d), mo)\n' % A
+    NAMES += '#define %s__exchange__2(a, x, mo) vf_aptr_exchange(a, (void *)(x), mo)\n' % A
+    NAMES += '#define %s__compare_exchange_strong__3(a, e, d, mo) vf_aptr_cas_strong(a, (void **)(e), (void *)(d), mo)\n' % A
     NAMES += '#define %s__dtor(a) ((void)0)\n' % A
 NAMES += r'''
 #define ext_static_allocate__%(AT)snode_allocator_type_ref_%(SZ)s(al, n) ((struct %(NODE)s *)vf_alloc(sizeof(struct %(NODE)s), 1))
@@ -132,6 +134,30 @@ _Bool vf_aptr_cas_weak(struct vf_atomic_ptr_ *a, void **expected, void *desired,
   vf_rcu_env(a);
   if (g_atomic_ops < VF_BIG) g_atomic_ops = g_atomic_ops + 1;
   if (a->v == *expected && vf_nondet_bool()) {       /* weak: may also fail spuriously */
+    vf_rcu_cas(a, *expected, desired, 1);
+    a->v = desired;
+    return 1;
+  }
+  vf_rcu_cas(a, *expected, desired, 0);
+  *expected = a->v;
+  if (g_cas_fail < VF_BIG) g_cas_fail = g_cas_fail + 1;
+  return 0;
+}
+void *vf_aptr_exchange(struct vf_atomic_ptr_ *a, void *x, int mo)
+{
+  vf_rcu_env(a);
+  if (g_atomic_ops < VF_BIG) g_atomic_ops = g_atomic_ops + 1;
+  void *o = a->v;
+  vf_rcu_loaded(a, o);
+  vf_rcu_store(a, o, x);
+  a->v = x;
+  return o;
+}
+_Bool vf_aptr_cas_strong(struct vf_atomic_ptr_ *a, void **expected, void *desired, int mo)
+{
+  vf_rcu_env(a);
+  if (g_atomic_ops < VF_BIG) g_atomic_ops = g_atomic_ops + 1;
+  if (a->v == *expected) {
     vf_rcu_cas(a, *expected, desired, 1);
     a->v = desired;
     return 1;
